@@ -432,6 +432,16 @@ func (e *termEnv) compute(v ssa.Value) string {
 			if t, ok := e.s.mem[p]; ok {
 				return t
 			}
+			// a field of a value that was stored as a whole (a by-value parameter spilled into a
+			// local: mem[alloc:t0] = $m, load of alloc:t0.distance is $m.distance)
+			for i := len(p) - 1; i > 0; i-- {
+				if p[i] != '.' && p[i] != '[' {
+					continue
+				}
+				if t, ok := e.s.mem[p[:i]]; ok && strings.HasPrefix(t, "$") && strings.HasPrefix(p, "alloc:") {
+					return t + p[i:]
+				}
+			}
 			return "@" + p
 		case token.SUB:
 			acc := &sumTerm{t: map[string]int64{}}
